@@ -1053,6 +1053,7 @@ func replayExpo(g *vh.Graph, c *Cfg, vals []AVal, rep int, tw *vh.TraceWriter, r
 				differs = true // what the edge's own collect reported (a delta stream then forgets it)
 			}
 			if differs {
+				res.Count("replayed_cases_differing_from_reference", 1)
 				res.AddMismatch(vh.Mismatch{Kind: "refdiff", Case: map[string]any{"sc": i, "dest": cls}, Path: acts[:len(acts)-1], Act: lastAct,
 					Want: want.Pt, Got: got, Detail: fmt.Sprintf("concrete values %v", concList(ops))})
 				if k := obsKey(lines); !judged[k] {
@@ -1299,6 +1300,7 @@ func replayExpl(g *vh.Graph, c *Cfg, vals []hVal, rep int, tw *vh.TraceWriter, r
 				differs = true // what the edge's own collect reported (a delta stream then forgets it)
 			}
 			if differs {
+				res.Count("replayed_cases_differing_from_reference", 1)
 				res.AddMismatch(vh.Mismatch{Kind: "refdiff", Case: map[string]any{"sc": i, "dest": cls}, Path: acts[:len(acts)-1], Act: lastAct,
 					Want: want.Pt, Got: got, Detail: fmt.Sprintf("bounds %v values %v", c.FBounds, concList(ops))})
 				if k := obsKey(lines); !judged[k] {
